@@ -3,8 +3,10 @@
 package hdf5
 
 import (
+	"encoding/binary"
 	"math"
 
+	"github.com/scigolib/hdf5/internal/core"
 	"github.com/scigolib/hdf5/internal/vrt"
 )
 
@@ -296,6 +298,68 @@ func VerifH_C01_api_chunked_i32() {
 	got, err := d.Read()
 	vrt.AssertNoErr(err, "chunked-read-ok")
 	verifIntCheck(got, err, want)
+	vrt.Covered("read-back")
+	_ = f.Close()
+}
+
+// compound datasets: struct { int32 id; float32 v; float64 w } (subset of members and member order forked), n records,
+// every field bit pattern symbolic; written with WriteRaw, read back with ReadCompound: each member by name
+func VerifH_C01_api_compound() {
+	ver := verifVersion()
+	n := 1 + vrt.Choice(2)
+	i32, err := core.CreateBasicDatatypeMessage(core.DatatypeFixed, 4)
+	vrt.AssertNoErr(err, "member-type-ok")
+	f32, err := core.CreateBasicDatatypeMessage(core.DatatypeFloat, 4)
+	vrt.AssertNoErr(err, "member-type-ok")
+	f64, err := core.CreateBasicDatatypeMessage(core.DatatypeFloat, 8)
+	vrt.AssertNoErr(err, "member-type-ok")
+	i32.ClassBitField |= 0x08 // signed
+	var fields []core.CompoundFieldDef
+	switch vrt.Choice(3) {
+	case 0:
+		fields = []core.CompoundFieldDef{{Name: "id", Offset: 0, Type: i32}, {Name: "v", Offset: 4, Type: f32}}
+	case 1:
+		fields = []core.CompoundFieldDef{{Name: "w", Offset: 0, Type: f64}, {Name: "id", Offset: 8, Type: i32}}
+	default:
+		fields = []core.CompoundFieldDef{{Name: "id", Offset: 0, Type: i32}, {Name: "v", Offset: 4, Type: f32}, {Name: "w", Offset: 8, Type: f64}}
+	}
+	ct, err := core.CreateCompoundTypeFromFields(fields)
+	vrt.AssertNoErr(err, "compound-type-ok")
+	rec := int(ct.Size)
+	raw := vrt.Bytes(rec * n)
+	fw, err := CreateForWrite("c01c.h5", CreateTruncate, WithSuperblockVersion(ver))
+	vrt.AssertNoErr(err, "create-ok")
+	ds, err := fw.CreateCompoundDataset("/d", ct, []uint64{uint64(n)})
+	vrt.AssertNoErr(err, "create-dataset-ok")
+	vrt.AssertNoErr(ds.WriteRaw(raw), "write-ok")
+	vrt.AssertNoErr(fw.Close(), "close-ok")
+	f, err := Open("c01c.h5")
+	vrt.AssertNoErr(err, "reopen-ok")
+	d := verifFindDataset(f, "/d")
+	vrt.Assert(d != nil, "dataset-found-at-path")
+	got, err := d.ReadCompound()
+	vrt.AssertNoErr(err, "compound-read-ok")
+	vrt.Assert(len(got) == n, "same-shape")
+	if err == nil && len(got) == n {
+		for r := 0; r < n; r++ {
+			for _, fd := range fields {
+				b := raw[r*rec+int(fd.Offset):]
+				v, ok := got[r][fd.Name]
+				vrt.Assert(ok, "compound-member-present")
+				switch fd.Name {
+				case "id":
+					x, isT := v.(int32)
+					vrt.Assert(isT && uint32(x) == binary.LittleEndian.Uint32(b[:4]), "compound-int32-exact")
+				case "v":
+					x, isT := v.(float32)
+					vrt.Assert(isT && math.Float32bits(x) == binary.LittleEndian.Uint32(b[:4]), "compound-float32-bit-exact")
+				case "w":
+					x, isT := v.(float64)
+					vrt.Assert(isT && math.Float64bits(x) == binary.LittleEndian.Uint64(b[:8]), "compound-float64-bit-exact")
+				}
+			}
+		}
+	}
 	vrt.Covered("read-back")
 	_ = f.Close()
 }
